@@ -230,7 +230,7 @@ class Ctx(object):
             a += list(ex.assumes) + list(ex.pc)
         return a
 
-    def eq(self, label, out, oracle, form='I', tol=1e-8, extra_assumptions=()):
+    def eq(self, label, out, oracle, form='I', tol=1e-8, extra_assumptions=(), const_tol=None):
         """obligation: out == oracle entry-wise"""
         t0 = time.time()
         if _np.shape(out) != _np.shape(oracle):
@@ -247,9 +247,20 @@ class Ctx(object):
             if _np.size(out) == 1 and _np.shape(out) != _np.shape(oracle):
                 out = asobj(out).reshape(())
                 oracle = asobj(oracle).reshape(())
-            v = solve.prove_equal(out, oracle, assum, self.timeout_ms)
+            v = None
+            if const_tol is not None:
+                # float-constant residue: both sides are ground (no free symbol); claim |out - oracle| <= const_tol, decided exactly
+                oa, ob_ = asobj(out), asobj(oracle)
+                if all(e.is_concrete for e in oa.plain().flat) and all(e.is_concrete for e in ob_.plain().flat):
+                    worst = max([abs(complex(a) - complex(b)) for a, b in zip(oa.plain().flat, ob_.plain().flat)] or [0.0])
+                    v = solve.Verdict('unsat' if worst <= const_tol else 'sat', None, None, 0.0,
+                                      'ground comparison within %g (max deviation %.3g)' % (const_tol, worst))
+            if v is None:
+                v = solve.prove_equal(out, oracle, assum, self.timeout_ms)
             ob = Obligation(label, form, v.status, time.time() - t0, note=v.note)
-            if v.status == 'sat':
+            if v.status == 'sat' and v.model is None:
+                ob.detail = v.note
+            elif v.status == 'sat':
                 ob.detail = 'entry %s differs' % (v.where,)
                 model = v.model
                 syms = solve.free_symbols(*[self.cache[n] for n in self.cache])
@@ -270,7 +281,7 @@ class Ctx(object):
                     vv = solve.check_sat(z3.BoolVal(True), assum, self.timeout_ms, cross=False)
                     if vv.status != 'sat':
                         raise HarnessError('vacuity guard: assumptions not satisfiable (%s)' % vv.status)
-                if not self.sensitivity_done and not v.note:
+                if not self.sensitivity_done and not v.note and const_tol is None:
                     self.sensitivity_done = True
                     self._sensitivity(label, out, oracle, assum)
             self.obligations.append(ob)
